@@ -391,7 +391,7 @@ static void decode_pointer_inplace(unsigned char *string)
             }
             else if (string[1] == '1')
             {
-                decoded_string[1] = '/';
+                decoded_string[0] = '/';
             }
             else
             {
@@ -400,6 +400,11 @@ static void decode_pointer_inplace(unsigned char *string)
             }
 
             string++;
+        }
+        else
+        {
+            /* ordinary character: move it down to its decoded position */
+            decoded_string[0] = string[0];
         }
     }
 
